@@ -487,11 +487,15 @@ def soak(ctx):
     the first ones (the loop itself is the caller op `caller.soak`, so the plan stays small)."""
     rng = ctx.rng
     p = Prog('soak')
+    from . import c20
+    targets = _soak_functions()
+    hot = [t for t in targets if t in c20.FOCUS_FNS]
     for _ in range(rng.randint(1, 2)):
+        tgt = rng.choice(hot) if hot and rng.random() < 0.7 else rng.choice(targets)      # change-directed choice of the function
         if rng.random() < 0.5:
-            p.call('caller.soak', rng.choice(_soak_functions()), rng.choice([150, 300, 600, 1100]), rng.randrange(1 << 30), rng.choice([6, 7, 9]))
+            p.call('caller.soak', tgt, rng.choice([150, 300, 600, 1100]), rng.randrange(1 << 30), rng.choice([6, 7, 9]))
         else:
-            p.call('caller.laysoak', rng.choice(_soak_functions()), rng.choice([60, 120, 250]), rng.randrange(1 << 30),
+            p.call('caller.laysoak', tgt, rng.choice([60, 120, 250]), rng.randrange(1 << 30),
                    rng.choice([3, 4, 5, 6, 7, 8, 9, 12, 17, 33]), rng.choice(['F', 'Fview', 'view', 'neg', 'int64', 'int64+F', 'int64+view']))
         p.steps[-1]['nodup'] = True
     return p.out()
